@@ -34,6 +34,10 @@ if h.MODEL:
     MET.metrics = skl.metrics
 
 
+class OpaqueGeometryAccess(BaseException):
+    pass
+
+
 def _pick(v, n):
     for k in range(n):
         if v == k:
@@ -98,6 +102,11 @@ def ob_clip(g0: bool, g1: bool, g2: bool, g3: bool, a00: float, a01: float, a10:
     cp = data.ClipPrediction(uuid=h.U(4), clip=clip, sound_events=preds)
 
     def affinity(g1, g2, time_buffer=0.01, freq_buffer=100):
+        if id(g1) not in geoms or id(g2) not in geoms:
+            # the code under test handed over a geometry it built itself: the symbolic-matrix obligations
+            # (which assume the geometries are passed through untouched) do not apply -> inconclusive;
+            # the geometric obligations (clip-geo-*) decide in that case
+            raise OpaqueGeometryAccess("compute_affinity called on a derived geometry")
         (k1, i1), (k2, i2) = geoms[id(g1)], geoms[id(g2)]
         if k1 == "p" and k2 == "a":
             return A[i1][i2]
@@ -180,6 +189,58 @@ def ob_clip(g0: bool, g1: bool, g2: bool, g3: bool, a00: float, a01: float, a10:
     return h.done(paired=(paired > 0), unpaired=(paired == 0 and n_ann + n_pred > 0), nogeo=nogeo)
 
 
+def ob_clip_geo(ta: float, tp: float, wa: float, p0: float, p1: float, code: int) -> bool:
+    """
+    pre: 0 <= ta <= 100 and 0 <= tp <= 100 and 0 <= wa <= 10
+    pre: 0 <= p0 and 0 <= p1 and p0 + p1 <= 1
+    post: _
+    """
+    # real geometries and the real compute_affinity (default buffers): one annotation, one prediction
+    from soundevent.evaluation import affinity as AFF
+
+    kind = h.P("kind")
+    try:
+        c = _pick(code, 2)
+    except graph.Vacuous:
+        return True
+    rec = data.Recording(uuid=h.U(1), path="/d/a.wav", duration=1000.0, channels=1, samplerate=8000)
+    clip = data.Clip(uuid=h.U(2), recording=rec, start_time=0.0, end_time=1000.0)
+    ga = data.TimeStamp(coordinates=ta) if kind == "stamp" else data.TimeInterval(coordinates=[ta, ta + wa])
+    gp = data.TimeStamp(coordinates=tp)
+    ann = data.SoundEventAnnotation(uuid=h.U(20), sound_event=data.SoundEvent(uuid=h.U(10), geometry=ga, recording=rec),
+                                    tags=[_tag(c)], created_on=h.DT(1))
+    pred = data.SoundEventPrediction(uuid=h.U(40), sound_event=data.SoundEvent(uuid=h.U(30), geometry=gp, recording=rec),
+                                     score=1.0, tags=[data.PredictedTag(tag=_tag(0), score=p0),
+                                                      data.PredictedTag(tag=_tag(1), score=p1)])
+    ca = data.ClipAnnotation(uuid=h.U(3), clip=clip, sound_events=[ann], created_on=h.DT(1))
+    cp = data.ClipPrediction(uuid=h.U(4), clip=clip, sound_events=[pred])
+    A = AFF.compute_affinity(gp, ga)
+    saved_metrics = SED.compute_overall_metrics
+    SED.compute_overall_metrics = lambda true_classes, scores: []
+    try:
+        ev = SED.sound_event_detection([cp], [ca], [_tag(k) for k in VOCAB])
+    finally:
+        SED.compute_overall_metrics = saved_metrics
+    ms = ev.clip_evaluations[0].matches
+    both = [m for m in ms if m.source is not None and m.target is not None]
+    if A > 0:
+        if len(ms) != 1 or len(both) != 1:
+            return h.fail("overlapping annotation and prediction are not paired")
+        if not _close(both[0].affinity, A):
+            return h.fail("paired match does not report the geometric affinity")
+        if not _close(both[0].score, [p0, p1][c]):
+            return h.fail("pair score is not the probability given to the annotation's class")
+    else:
+        if both:
+            return h.fail("prediction paired with an annotation it does not overlap")
+        if len(ms) != 2 or any(not (m.affinity == 0 and m.score == 0) for m in ms):
+            return h.fail("unpaired events are not reported once each with affinity 0 and score 0")
+    want = ([p0, p1][c]) if A > 0 else 0.0
+    if not _close(ev.clip_evaluations[0].score, want) or not _close(ev.score, want):
+        return h.fail("clip / overall score is not the mean of the match scores")
+    return h.done(paired=(A > 0), unpaired=not (A > 0))
+
+
 def ob_clips(in0: bool, in1: bool, in2: bool, swap: bool) -> bool:
     """
     post: _
@@ -224,6 +285,9 @@ def plan():
         obs.append(Ob("full-pipeline-a%dp%d" % (n_ann, n_pred), ob_clip, "real", 1800,
                       dict(n_ann=n_ann, n_pred=n_pred, stub_run_metrics=False), q if n_ann < 2 else ("thorough",),
                       twins=("unpaired",), twin_timeout=600))
+    for kind in ("stamp", "interval"):
+        obs.append(Ob("clip-geo-" + kind, ob_clip_geo, "real", 1800, dict(kind=kind), q, twins=("paired", "unpaired"),
+                      twin_timeout=300))
     obs.append(Ob("evaluated-clips", ob_clips, "real", 600, {}, q, twins=("raised",), twin_timeout=300))
     return obs
 
